@@ -2142,6 +2142,11 @@ func (m *Machine) processQueue() Result {
 	}
 	m.queueMx.Unlock()
 
+	// a mutation queued after the last length check, but before the release
+	if m.queueLen.Load() > 0 {
+		m.processQueue()
+	}
+
 	if len(ret) == 0 {
 		return Canceled
 	}
